@@ -156,7 +156,7 @@ def main():
         rbC = rb.pop('__constants__', {})
         try:
             with E.rebound(mod, **rb), E.rebound(C, **rbC), wb:
-                pth = E.explore(thunk, vl_pre if 'list' in owned else (), history=True, label=name, max_paths=800)
+                pth = E.explore(thunk, vl_pre if 'list' in owned else (), history=True, label=name, max_paths=400)
         except S.EngineError as ex:
             # outside the engine's reach (unsupported construct, path explosion): undecided here, never a verdict; the bounded layer still judges the function
             P.oblige('frame[%s]' % name, name, 'engine', dict(result='engine: %s' % str(ex)[:120], backend='symbolic execution', ms=0), strict=True, soft=True)
@@ -166,7 +166,8 @@ def main():
         arr_writes = [p for p in pth if p['kind'] == 'raise' and 'read-only' in str(p['val'])]
         bad_list = list(RecList.log)
         # written module state (memo tables ...): results after an arbitrary earlier call must still be a function of the arguments
-        hist_dep = [p for p in pth if p.get('history') and not p.get('independent')]
+        hist_dep = [p for p in pth if p.get('history') and p.get('verdict') == 'dependent']
+        hist_unk = [p for p in pth if p.get('history') and p.get('verdict') == 'unknown']        # reported once by state_independence[...] as UNDECIDED
         # uninitialised memory (np.empty) is modelled as fresh symbols: a result that mentions one is not a function of the arguments
         uninit_dep = [p for p in pth if any(n_.startswith('UNINIT_') for n_ in ST.consts_of(ST.terms_of(p['val'])))]
         completes = any(p['kind'] in ('ret', 'loopback') for p in pth)          # vacuity guard: the body has been run to completion on some path
@@ -181,8 +182,12 @@ def main():
                 if vl != before:
                     return dict(call='precise_inst_ht([88.0, 90.5, 89.2, 91.4], 0.1, 0.1)', observed='caller list reordered to %r' % vl, expected='caller list unchanged %r' % before)
             return None
-        P.oblige('frame[%s]' % name, name, '%d paths' % len(pth), dict(result='discharged' if ok else 'sat', backend='write barrier + recording list + read-only arrays, all paths', ms=0, model=None),
-                 strict=True, refute=refute, pool=[{}],
+        evidence_of_effect = bool(writes or arr_writes or bad_list or hist_dep or uninit_dep)
+        vacuous = not completes and not evidence_of_effect
+        P.oblige('frame[%s]' % name, name, '%d paths' % len(pth),
+                 dict(result='discharged' if ok else ('sat' if evidence_of_effect else 'engine: no path of the function runs to completion on symbolic inputs (%r)' % ([(p['kind'], p['val']) for p in pth if p['kind'] == 'raise'][:2],)),
+                      backend='write barrier + recording list + read-only arrays, all paths', ms=0, model=None),
+                 strict=True, refute=refute, pool=[{}], soft=vacuous,
                  note='assigns nothing that existed before the call; writes=%r list-mutators=%r array-writes=%d; paths whose result depends on an earlier call through written module state: %d of %d history paths; paths whose result reads uninitialised memory: %d' % (
                      [(c_, n_) for c_, n_, _, _ in writes][:6], bad_list[:4], len(arr_writes), len(hist_dep), sum(bool(p.get('history')) for p in pth), len(uninit_dep)))
     P.notes.append('frame obligations explored %d paths of %d functions' % (total_paths, len(CAT)))
@@ -193,11 +198,22 @@ def main():
         tree = ast.parse(src)
         flagged, reads_bad = [], []
         state_names = {e['name'] for e in ST.STATE if e['owner'] is mods.get('geodepy.' + m) and e['kind'] == 'container'}
+        state_names |= {n_.split('.')[-1] for n_ in state_names if n_.startswith('closure:')}          # memo tables held in closure cells: judged by the history paths
         modglobals = set()
         for n in tree.body:
             for t in ast.walk(n) if isinstance(n, (ast.Assign, ast.AugAssign)) else []:
                 if isinstance(t, ast.Name) and isinstance(t.ctx, ast.Store):
                     modglobals.add(t.id)
+        # parameters that, at every call site inside the module, receive a registered state container (a memo table handed to a helper):
+        # stores through them are stores into that state and are judged by the history paths
+        state_params = set()
+        fdefs = {n.name: n for n in ast.walk(tree) if isinstance(n, (ast.FunctionDef, ast.AsyncFunctionDef))}
+        for fname, fd in fdefs.items():
+            for i_, a_ in enumerate(fd.args.args):
+                sites = [c for c in ast.walk(tree) if isinstance(c, ast.Call) and isinstance(c.func, ast.Name) and c.func.id == fname]
+                vals = [(c.args[i_] if i_ < len(c.args) else next((k.value for k in c.keywords if k.arg == a_.arg), None)) for c in sites]
+                if sites and all(isinstance(v_, ast.Name) and v_.id in state_names for v_ in vals):
+                    state_params.add((fname, a_.arg))
         for fn in [n for n in ast.walk(tree) if isinstance(n, (ast.FunctionDef, ast.AsyncFunctionDef))]:
             params = {a.arg for a in fn.args.args + fn.args.kwonlyargs} | ({fn.args.vararg.arg} if fn.args.vararg else set())
             fresh = set()
@@ -228,11 +244,11 @@ def main():
                             b = base(q)
                             if b == 'self' and fn.name == '__init__':
                                 continue
-                            if b is not None and (b in params or (b not in fresh)) and b not in state_names:
+                            if b is not None and (b in params or (b not in fresh)) and b not in state_names and (fn.name, b) not in state_params:
                                 flagged.append((fn.name, n.lineno, ast.unparse(q)))
                 if isinstance(n, ast.Call) and isinstance(n.func, ast.Attribute) and n.func.attr in MUTATORS:
                     b = base(n.func.value)
-                    if b is not None and (b in params or b not in fresh) and b not in state_names:
+                    if b is not None and (b in params or b not in fresh) and b not in state_names and (fn.name, b) not in state_params:
                         flagged.append((fn.name, n.lineno, ast.unparse(n.func)))
                 if isinstance(n, (ast.Global, ast.Nonlocal)):
                     flagged.append((fn.name, n.lineno, 'global/nonlocal ' + ','.join(n.names)))
